@@ -398,6 +398,16 @@ def _ifexp_calls(fnode, ref: dict) -> int:
 
 
 def split_ifexp_statements(fnode, ref: dict) -> int:
+    total = 0
+    for _ in range(6):
+        k = _split_ifexp_once(fnode, ref)
+        total += k
+        if not k:
+            break
+    return total
+
+
+def _split_ifexp_once(fnode, ref: dict) -> int:
     known = set(ref.get("ifexps", []))
     n = 0
     for owner, fld, blk in _blocks(fnode):
@@ -621,6 +631,12 @@ def expand_new_comprehensions(fnode, ref: dict) -> int:
             elif isinstance(st, ast.Expr) and isinstance(st.value, ast.Call) and isinstance(st.value.func, ast.Attribute) and st.value.func.attr == "extend" and isinstance(st.value.func.value, ast.Name) \
                     and len(st.value.args) == 1 and isinstance(st.value.args[0], (ast.GeneratorExp, ast.ListComp)):
                 comp, tgt, mode = st.value.args[0], st.value.func.value.id, "extend"
+            ret_form = False
+            if comp is None and isinstance(st, ast.Return) and isinstance(st.value, (ast.ListComp, ast.DictComp, ast.SetComp)):
+                # `return [..comprehension..]`: accumulate into the local the reference had for it (first reference local that is gone)
+                have = set(local_names(fnode))
+                gone = [x for x in ref.get("locals", []) if x not in have and x != "_"]
+                comp, tgt, mode, ret_form = st.value, (gone[0] if gone else "_pdv_acc"), "new", True
             if comp is None or _canon_comp(comp) in known or any(isinstance(x, (ast.ListComp, ast.SetComp, ast.DictComp, ast.GeneratorExp)) and x is not comp for x in ast.walk(comp)):
                 i += 1
                 continue
@@ -639,6 +655,8 @@ def expand_new_comprehensions(fnode, ref: dict) -> int:
                     body = [ast.If(test=c, body=body, orelse=[])]
                 body = [ast.For(target=g.target, iter=g.iter, body=body, orelse=[])]
             new = ([ast.Assign(targets=[ast.Name(id=tgt, ctx=ast.Store())], value=init)] if mode == "new" else []) + body
+            if ret_form:
+                new.append(ast.Return(value=ast.Name(id=tgt, ctx=ast.Load())))
             for s_ in new:
                 ast.copy_location(s_, st)
                 ast.fix_missing_locations(s_)
